@@ -11,6 +11,7 @@ from ..api import Case, Suite
 from . import C08
 
 ID = "C03"
+MERGE = ["C03commute"]   # clause "scale after compile = compile the pre-multiplied source" (coordinator)
 PROPS_FILE = "Props/C03.v"
 GEN_DEPS: List[str] = []
 ALLOWED_AXIOMS: List[str] = []
